@@ -9,6 +9,12 @@ pub fn root() -> PathBuf {
     PathBuf::from(std::env::var("VERIF_ROOT").unwrap_or_else(|_| "/verif".to_string()))
 }
 
+/// the repository under test (`/repo`; the sensitivity lab of tools/seedlab.sh points it at a
+/// scratch worktree through VERIF_REPO so that seeded changes never touch /repo)
+pub fn repo() -> PathBuf {
+    PathBuf::from(std::env::var("VERIF_REPO").unwrap_or_else(|_| "/repo".to_string()))
+}
+
 pub fn hash64(s: &str) -> u64 {
     crate::dice::tag(s)
 }
